@@ -41,7 +41,7 @@ META = {
             'transcription Model/Convert.lean (tied by correspondence only); the independent Std table (typed by hand from unit '
             'definitions and CHANGES.txt); real arithmetic for IEEE doubles. FluidParticle.density enters the theorems as a '
             'hypothesis (positive, depends on composition only) — sampled on the real EOS, not proved. Two-phase particles '
-            '(fp_type=2) are not covered. The full chain theorem is false for the unit (L/mol/deg F) (negation proved, kept partial).',
+            '(fp_type=2) are not covered. The unit block (L/mol/deg F) was found defective by this check (factor 5/9 instead of 9/5) and repaired in /repo (543e1ec); the full chain theorem, its partial form and the witness of the negation for the old factor are all kept.',
     'technique': 'Lean 4 proofs (induction over lists; decide over regenerated tables) + differential execution of the model against the real code',
 }
 
